@@ -613,7 +613,7 @@ def C09():
     r_own.invalidation(chk, units + _example_units())
     r_own.returned_references(chk, units + _example_units())
     r_own.api_returns(chk, units)
-    r_small.r_arg_sequence(chk, units + _example_units(), lambda f: C.in_repo(f.decl["pfile"]))
+    # (R-LIFE.seq is not used here: reading a moved-from library object is defined behaviour - it is C20's concern)
     r_small.r_eigen_init(chk, units + _example_units(), lambda f: C.in_repo(f.decl["pfile"]))
     r_inv.grid_move(chk, units)
     chk.floor("R-REG.ub", chk.rules["R-REG.ub"]["instances"], 100, "(function, clause) obligations")
@@ -621,7 +621,7 @@ def C09():
     #  the rule from passing vacuously)
     from . import controls
     controls.require(chk, ['R-OPT', 'R-OWN.field', 'R-LIFE', 'R-LIFE.inval', 'R-LIFE.ret', 'R-API.ret',
-                            'R-LIFE.seq', 'R-EX.init'])
+                            'R-EX.init'])
     return chk
 
 
